@@ -1,6 +1,6 @@
 impl BytesMut {
     #[verifier::external_body]
-    pub fn starts_with(&self, p: &[u8]) -> (r: bool) ensures r == (p@.len() <= self@.len() && self@.take(p@.len() as int) == p@) { self.v.starts_with(p) }
+    pub fn starts_with(&self, p: &[u8]) -> (r: bool) ensures r == (p@.len() <= self@.len() && self@.take(p@.len() as int) =~= p@) { self.v.starts_with(p) }
     #[verifier::external_body]
     pub fn from_slice(s: &[u8]) -> (r: BytesMut) ensures r@ == s@ { BytesMut { v: s.to_vec() } }
     #[verifier::external_body]
@@ -10,4 +10,4 @@ impl BytesMut {
 }
 // slice equality as used in parsers (`&buf[a..b] == b"--"`): R16 routes it through this helper
 #[verifier::external_body]
-pub fn bytes_eq(a: &[u8], b: &[u8]) -> (r: bool) ensures r == (a@ == b@) { a == b }
+pub fn bytes_eq(a: &[u8], b: &[u8]) -> (r: bool) ensures r == (a@ =~= b@) { a == b }
